@@ -332,6 +332,760 @@ def ob_handle_comparison(w=4, tier="quick"):
     return explore(body, _opts(tier))
 
 
+# ---- the remaining functions of the balancer (round 4): _unpack_truisms*, _handle_eq / _handle_ne / _handle_if, _balance_if,
+# ---- the bound store (_add_lower_bound / _add_upper_bound) and _replacements_iter ---------------------------------
+
+def _cardinality_free():
+    """Base.cardinality by contract: 1 for a concrete node; for a symbolic node 1 or more (an annotated symbol, x - x, ...) - decided once per
+    node; 1 means the VSA value is a singleton, so by C24 the expression has that one value (vsa.eval(e, 1)[0] == [[e]])"""
+    def card(self):
+        r = self.root()
+        if not hasattr(r, "vf_card"):
+            if not bool(self.symbolic):
+                r.vf_card = 1
+            else:
+                r.vf_card = 1 if cur().choose([True, True], f"cardinality{r.uid}") == 0 else 2
+        return r.vf_card
+    SN.SymNode.cardinality = property(card)
+
+
+class VSAContract2(VSAContract):
+    """VSAContract + what the handlers need: eval of a cardinality-1 expression is its value; min / max of a symbol that carries a
+    StridedIntervalAnnotation(stride, lb, ub) with lb <= ub are exactly lb / ub (C24: leaf obligations)"""
+
+    @staticmethod
+    def eval(e, n):
+        if getattr(e.root(), "vf_card", None) == 1 or not bool(e.symbolic):
+            w = e.length
+            v = SymInt.fresh(f"the-value{e.root().uid}", 0, (1 << w) - 1)
+            cur().assume(e.den == z3.Extract(w - 1, 0, v.z))
+            return [v]
+        return VSAContract.eval(e, n)
+
+    @staticmethod
+    def _anno(e):
+        return e.get_annotation(real.annotation.StridedIntervalAnnotation) if e.root()._op in (None, "BVS") and getattr(e.root(), "vf_bvs", False) else None
+
+    @staticmethod
+    def min(e, signed=False):
+        a = VSAContract2._anno(e)
+        if a is not None and not signed:
+            if not cur().branch(proxies._bv(a.lower_bound) <= proxies._bv(a.upper_bound), "annotation-does-not-wrap"):
+                raise Undecided("min of a wrapping annotation")
+            return a.lower_bound
+        return VSAContract.min(e, signed)
+
+    @staticmethod
+    def max(e, signed=False):
+        a = VSAContract2._anno(e)
+        if a is not None and not signed:
+            if not cur().branch(proxies._bv(a.lower_bound) <= proxies._bv(a.upper_bound), "annotation-does-not-wrap"):
+                raise Undecided("max of a wrapping annotation")
+            return a.upper_bound
+        return VSAContract.max(e, signed)
+
+
+def _isect(a, b):
+    """contract of the AST operation a.intersection(b) as the VSA backend evaluates it (C22 / C24): a value both operands take is a value of
+    the result - under an assignment where the operands are equal the result has that value"""
+    r = SN.new_node(a.root().sort, label="isect")
+    cur().assume(z3.Implies(a.den == b.den, r.den == a.den))
+    cur().assume(r.zsym == z3.Or(a.zsym, b.zsym))
+    r.vf_isect = (a, b)
+    return r
+
+
+def _bvs(name, size, **kw):
+    r = SN.new_node(("bv", size), label="bvs")
+    r.vf_bvs = True
+    return r
+
+
+def load2():
+    """the same real source, with the extended VSA contract"""
+    import logging
+    logging.getLogger("claripy.backends.backend_vsa.balancer").setLevel(logging.CRITICAL + 1)
+    if "b2" not in _c:
+        cl = SIMP.contract_claripy()
+        cl.backends = SIMP._NS(vsa=VSAContract2, concrete=SIMP._NS(handles=lambda e: True))
+        cl.annotation = real.annotation
+        cl.excavate_ite = lambda e: e
+        cl.BVS = _bvs
+        vsa_mod = SIMP._NS(StridedInterval=SIMP._NS(max_int=lambda k: (1 << k) - 1))
+        _c["b2"] = loader.load("claripy/backends/backend_vsa/balancer.py", "claripy.backends.backend_vsa.balancer",
+                               overrides={"claripy": cl, "vsa": vsa_mod, "BV": SN.SymBV, "Base": SN.SymNode, "Bool": SN.SymBoolN},
+                               extra_shadow={"getattr": SIMP.vf_getattr})
+    return _c["b2"]
+
+
+class _Patched:
+    """SymBV.intersection answered by the VSA-level contract while one obligation runs; _with_annotations keeps the vf_bvs mark"""
+    def __enter__(self):
+        self.old = SN.SymBV.intersection
+        self.oldw = SN.SymNode._with_annotations
+        SN.SymBV.intersection = _isect
+        oldw = self.oldw
+
+        def w(node, annos):
+            r = oldw(node, annos)
+            if getattr(node.root(), "vf_bvs", False):
+                r.root().vf_bvs = True
+            return r
+        SN.SymNode._with_annotations = w
+
+    def __exit__(self, *a):
+        SN.SymBV.intersection = self.old
+        SN.SymNode._with_annotations = self.oldw
+
+
+def _blank(B):
+    b = object.__new__(B)
+    b._truisms, b._ast_hash_map, b._lower_bounds, b._upper_bounds = [], {}, {}, {}
+    b.sat = True
+    return b
+
+
+def _bounds_hold(c, label, b, t, w, iw, signed=False):
+    """every bound recorded in b holds under the truism t for the expression it is recorded for"""
+    for store, is_upper in ((b._upper_bounds, True), (b._lower_bounds, False)):
+        for k, bound in store.items():
+            ast = b._ast_hash_map.get(k)
+            if ast is None:
+                c.fail(label + "/bound-without-expression", "a bound is recorded under a key that _ast_hash_map does not know")
+                continue
+            val = z3.SignExt(iw - w, ast.den) if signed else z3.ZeroExt(iw - w, ast.den)
+            bz = proxies._bv(bound)
+            c.watch["upper" if is_upper else "lower"] = bz
+            c.check(label + ("/upper-bound" if is_upper else "/lower-bound"), z3.Implies(t.den, (val <= bz) if is_upper else (val >= bz)),
+                    f"the {'upper' if is_upper else 'lower'} bound recorded for an operand excludes a value it takes under a satisfying assignment")
+
+
+def ob_handler(what, w=4, tier="quick"):
+    """{truism}  _handle_eq / _handle_ne / _handle_if  {every recorded bound holds under the truism (unsigned); every truism pushed on the
+    worklist is implied by the truism}"""
+    ns = load2()
+    _cardinality_free()
+    B = ns["Balancer"]
+    proxies.set_iw(3 * w + 12)
+    iw = proxies.get_iw()
+    from claripy.errors import ClaripyBalancerUnsatError
+    label = f"Balancer._handle_{what}"
+
+    def body(c):
+        with _Patched():
+            if what == "if":
+                t = SN.new_node(("bool",), "root_t")
+                cond, tb, fb = (SN.new_node(("bool",), n) for n in ("cond", "then", "else"))
+                t._set_shape("If", (cond, tb, fb))
+                c.assume(t.den == z3.If(cond.den, tb.den, fb.den))
+                c.assume(t.zsym == z3.Or(cond.zsym, tb.zsym, fb.zsym))
+            else:
+                t = _truism(c, "__eq__" if what == "eq" else "__ne__", None, w)
+            c.describers.append(lambda m: {"truism": SN.describe(t, m)})
+            b = _blank(B)
+            try:
+                getattr(b, "_handle_" + what)(t)
+            except ClaripyBalancerUnsatError:
+                c.check(label + "/unsat-only-if-unsat", z3.Not(t.den), "reported unsatisfiable although an assignment satisfies the truism")
+                return "unsat"
+            except (PathEnd, Undecided):
+                raise
+            except Exception as ex:  # noqa
+                import traceback
+                c.fail(label + "/raises", f"{type(ex).__name__}: {ex} {traceback.format_exc()[-300:]}", kind="raises")
+                return "raised"
+            _bounds_hold(c, label, b, t, w, iw)
+            for p in b._truisms:
+                if not isinstance(p, SN.SymBoolN):
+                    c.fail(label + "/pushed-type", f"pushed a {type(p).__name__} on the worklist")
+                    continue
+                c.check(label + "/pushed-truism-implied", z3.Implies(t.den, p.den), "a truism pushed on the worklist does not follow from the handled truism")
+            c.check(label + "/done", True)
+            return f"{what}:{len(b._lower_bounds)}+{len(b._upper_bounds)}+{len(b._truisms)}"
+
+    return explore(body, _opts(tier))
+
+
+def ob_unpack(tier="quick"):
+    """{c}  _unpack_truisms(c)  {c => every returned truism; ClaripyBalancerUnsatError only if c has no satisfying assignment}"""
+    ns = load2()
+    _cardinality_free()
+    B = ns["Balancer"]
+    proxies.set_iw(24)
+    from claripy.errors import ClaripyBalancerUnsatError
+    label = "Balancer._unpack_truisms"
+
+    real_unpack = B.__dict__["_unpack_truisms"].__func__
+    DEPTH = 6 if tier == "quick" else 9
+
+    def body(c):
+        t = SN.new_node(("bool",), "root_t")
+        c.describers.append(lambda m: {"constraint": SN.describe(t, m)})
+        # stated bound: recursion depth of _unpack_truisms <= DEPTH.  The expressions the function builds itself (De Morgan) come back from
+        # the constructor contract with an undecided shape, so unlike on a finite AST the recursion need not end: deeper paths are cut
+        # (not claimed), every path within the bound is checked
+        depth = [0]
+
+        def counted(x):
+            depth[0] += 1
+            try:
+                if depth[0] > DEPTH:
+                    c.ghost["cut"] = True
+                    raise PathEnd()
+                return real_unpack(x)
+            finally:
+                depth[0] -= 1
+        B._unpack_truisms = staticmethod(counted)
+        old_hash = SN.SymBoolN.__hash__
+        SN.SymBoolN.__hash__ = lambda self: id(self.root())      # the function collects truisms in sets: identity of the node object
+        try:
+            try:
+                rs = B._unpack_truisms(t)
+            finally:
+                SN.SymBoolN.__hash__ = old_hash
+        except ClaripyBalancerUnsatError:
+            c.check(label + "/unsat-only-if-unsat", z3.Not(t.den), "reported unsatisfiable although an assignment satisfies the constraint")
+            return "unsat"
+        except (PathEnd, Undecided):
+            raise
+        except Exception as ex:  # noqa
+            import traceback
+            c.fail(label + "/raises", f"{type(ex).__name__}: {ex} {traceback.format_exc()[-300:]}", kind="raises")
+            return "raised"
+        if not isinstance(rs, (set, frozenset, list, tuple)):
+            c.fail(label + "/type", f"returned {type(rs).__name__}")
+            return "type"
+        for r in rs:
+            c.check(label + "/implied", z3.Implies(t.den, r.den), "a returned truism does not follow from the constraint")
+        c.check(label + "/done", True)
+        return f"ret:{len(rs)}"
+
+    return explore(body, _opts(tier, max_arity=2, nested_arity=2, mentioned={"And", "Or", "Not"}, result_levels=True, op_depth_bound={"And": 2, "Or": 2, "Not": 2}))
+
+
+def ob_balance_if(cmp="__eq__", w=4, tier="quick"):
+    """{truism cmp(If(c, a, b), rhs)}  _balance_if  {the truism implies the returned truism and every truism pushed on the worklist;
+    ClaripyBalancerUnsatError only if the truism has no satisfying assignment; never returns None}"""
+    ns = load2()
+    _cardinality_free()
+    B = ns["Balancer"]
+    proxies.set_iw(3 * w + 12)
+    from claripy.errors import ClaripyBalancerUnsatError
+    label = "Balancer._balance_if"
+
+    def body(c):
+        t = _truism(c, cmp, "If", w)
+        c.describers.append(lambda m: {"truism": SN.describe(t, m)})
+        b = _blank(B)
+        try:
+            r = b._balance_if(t)
+        except ClaripyBalancerUnsatError:
+            c.check(label + "/unsat-only-if-unsat", z3.Not(t.den), "reported unsatisfiable although an assignment satisfies the truism")
+            return "unsat"
+        except (PathEnd, Undecided):
+            raise
+        except Exception as ex:  # noqa
+            import traceback
+            c.fail(label + "/raises", f"{type(ex).__name__}: {ex} {traceback.format_exc()[-300:]}", kind="raises")
+            return "raised"
+        if not isinstance(r, SN.SymBoolN):
+            c.fail(label + "/type", f"returned {type(r).__name__} (the caller _balance dereferences the result)")
+            return "type"
+        c.check(label + "/implied", z3.Implies(t.den, r.den), "an assignment satisfies the truism but not the balanced truism")
+        for p in b._truisms:
+            c.check(label + "/pushed-condition-implied", z3.Implies(t.den, p.den), "the condition pushed on the worklist does not follow from the truism")
+        return "unchanged" if r is t else f"branch-selected:{len(b._truisms)}"
+
+    return explore(body, _opts(tier, if_depth_bound=1))
+
+
+def _in_annotation(v, lb, ub, w, iw):
+    """member of the strided interval the VSA backend builds from StridedIntervalAnnotation(1, lb, ub) at w bits: bounds are taken modulo 2^w,
+    the interval runs upwards from lb to ub (wrapping)"""
+    m = (1 << w) - 1
+    lo, hi = proxies._bv(lb) & m, proxies._bv(ub) & m
+    return ((v - lo) & m) <= ((hi - lo) & m)
+
+
+def ob_bound_store(w=4, tier="quick"):
+    """the bound store.  _add_lower_bound / _add_upper_bound: if every recorded bound of an expression holds for its value (in ONE reading of
+    the value - unsigned, or signed - per expression) and the added bound does too, every recorded bound holds afterwards and the expression is
+    registered.  _replacements_iter: for an expression whose recorded bounds hold in one reading and which has BOTH bounds, or only bounds of
+    the unsigned reading, the yielded replacement is `expr ∩ bound-symbol` (for Reverse(x): x is replaced by the reversed intersection) and
+    the bound symbol's annotation contains the value.  (A signed bound on one side only is completed by the implicit assumption that
+    _get_assumptions queues - that the worklist processes it is the bounded part.)"""
+    ns = load2()
+    _cardinality_free()
+    B = ns["Balancer"]
+    proxies.set_iw(3 * w + 12)
+    iw = proxies.get_iw()
+    label = "Balancer.bound-store"
+
+    def body(c):
+        with _Patched():
+            b = _blank(B)
+            rev = c.choose([True, True], "expression-is-a-Reverse") == 1
+            x = SN.new_node(("bv", w), "root_x")
+            if rev:
+                if w % 8:
+                    raise PathEnd()
+                if not x._op_is("Reverse"):
+                    raise PathEnd()
+            else:
+                x._excl.add("Reverse")
+            signed = c.choose([True, True], "reading") == 1
+            val = z3.SignExt(iw - w, x.den) if signed else z3.ZeroExt(iw - w, x.den)
+            lo_r, hi_r = (-(1 << (w - 1)), (1 << (w - 1)) - 1) if signed else (0, (1 << w) - 1)
+            seq = []
+            nadd = 1 + c.choose([True, True, True], "n-adds")
+            for i in range(nadd):
+                upper = c.choose([True, True], f"add{i}-is-upper") == 1
+                bd = SymInt.fresh(f"b{i}", lo_r, hi_r)
+                c.assume((val <= bd.z) if upper else (val >= bd.z))           # the added bound holds for the value
+                (b._add_upper_bound if upper else b._add_lower_bound)(x, bd)
+                seq.append(upper)
+            k = x.hash()
+            if k not in b._ast_hash_map or b._ast_hash_map[k] is not x:
+                c.fail(label + "/registered", "the expression is not registered under its key")
+                return "bad"
+            for store, is_upper in ((b._upper_bounds, True), (b._lower_bounds, False)):
+                if k in store:
+                    bz = proxies._bv(store[k])
+                    c.check(label + "/merged-bound-holds", (val <= bz) if is_upper else (val >= bz), "after merging, a recorded bound excludes the value")
+            has_lo, has_hi = k in b._lower_bounds, k in b._upper_bounds
+            if (any(seq) != has_hi) or (not all(seq)) != has_lo:
+                c.fail(label + "/sides", "a bound was recorded on the wrong side")
+                return "bad"
+            if signed and not (has_lo and has_hi):
+                c.check(label + "/one-sided-signed-bound-left-to-the-assumption", True)
+                return "signed-one-sided"
+            try:
+                out = b.replacements
+            except (PathEnd, Undecided):
+                raise
+            except Exception as ex:  # noqa
+                import traceback
+                c.fail(label + "/replacements-raises", f"{type(ex).__name__}: {ex} {traceback.format_exc()[-300:]}", kind="raises")
+                return "raised"
+            if len(out) != 1:
+                c.fail(label + "/one-replacement-per-expression", f"{len(out)} replacements for one expression")
+                return "bad"
+            old, newv = out[0]
+            inner = newv
+            if rev:
+                if old is not x.args[0]:
+                    c.fail(label + "/reverse-replaces-the-operand", "for Reverse(y) the replaced expression is not y")
+                    return "bad"
+                gf = getattr(newv.root(), "ghost_from", None)
+                if not (gf and gf[0] == "Reverse" and len(gf[1]) == 1):
+                    c.fail(label + "/reverse-replacement-is-reversed", "for Reverse(y) the replacement is not the reversed intersection")
+                    return "bad"
+                inner = gf[1][0]
+            elif old is not x:
+                c.fail(label + "/replaces-the-expression", "the replaced expression is not the bounded one")
+                return "bad"
+            parts = getattr(inner.root(), "vf_isect", None)
+            if parts is None or parts[0] is not x:
+                c.fail(label + "/replacement-is-an-intersection-with-the-expression", "the replacement is not `expression ∩ bound`")
+                return "bad"
+            an = parts[1].get_annotation(real.annotation.StridedIntervalAnnotation)
+            if an is None or not getattr(parts[1].root(), "vf_bvs", False):
+                c.fail(label + "/bound-symbol", "the bound is not a fresh symbol with a StridedIntervalAnnotation")
+                return "bad"
+            st = an.stride
+            c.check(label + "/stride-1", proxies._bv(st) == 1 if not isinstance(st, int) else st == 1, "the bound symbol's stride is not 1")
+            v = z3.ZeroExt(iw - w, x.den)
+            c.check(label + "/value-in-bound-annotation", _in_annotation(v, an.lower_bound, an.upper_bound, w, iw),
+                    "the bound symbol's interval excludes a value that satisfies every recorded bound")
+            return f"{'signed' if signed else 'unsigned'}:{'rev' if rev else 'plain'}:{int(has_lo)}{int(has_hi)}"
+
+    return explore(body, _opts(tier))
+
+
+# ---- alignment, dispatch and the two loops (_balance, _doit) by loop invariant --------------------------------------
+
+class _Cut(Exception):
+    """raised by a harness object at the start of the NEXT loop iteration: the state at that point is then checked against the invariant"""
+
+
+class _AlignPatch:
+    """canonicalize() / identical() of the VSA-level self check in _align_truism by contract: canonicalize keeps the meaning; identical()
+    may answer anything (the function must be right whichever way its self check goes)"""
+    def __enter__(self):
+        SN.SymNode.canonicalize = lambda self, **kw: (None, None, self)
+        SN.SymNode.identical = lambda self, o: cur().choose([True, True], "identical?") == 0
+
+    def __exit__(self, *a):
+        del SN.SymNode.canonicalize
+        del SN.SymNode.identical
+
+
+def ob_align(what, w=8, tier="quick"):
+    """_align_ast on a bit-vector / on a comparison, _align_truism, _adjust_truism: the result has the meaning of the argument"""
+    ns = load2()
+    _cardinality_free()
+    B = ns["Balancer"]
+    proxies.set_iw(3 * w + 12)
+    label = f"Balancer.{'_align_ast' if what.startswith('ast') else '_' + what}"
+
+    def body(c):
+        with _AlignPatch():
+            if what == "ast-bv":
+                t = SN.new_node(("bv", w), "root_a")
+            else:
+                op = CMP[c.choose([True] * len(CMP), "cmp-op")]
+                t = _truism(c, op, None, w)
+            c.describers.append(lambda m: {"argument": SN.describe(t, m)})
+            try:
+                r = {"ast-bv": B._align_ast, "ast-bool": B._align_ast, "align_truism": B._align_truism, "adjust_truism": B._adjust_truism}[what](t)
+            except (PathEnd, Undecided):
+                raise
+            except Exception as ex:  # noqa
+                from claripy.errors import ClaripyBalancerError
+                if isinstance(ex, ClaripyBalancerError):
+                    c.check(label + "/balancer-error-is-caught-by-the-caller", True)
+                    return "balancer-error"
+                import traceback
+                c.fail(label + "/raises", f"{type(ex).__name__}: {ex} {traceback.format_exc()[-300:]}", kind="raises")
+                return "raised"
+            if not isinstance(r, SN.SymNode) or r.root().sort != t.root().sort:
+                c.fail(label + "/sort", f"returned {type(r).__name__} of another sort")
+                return "sort"
+            c.describers.append(lambda m: {"result": SN.describe(r, m)})
+            c.check(label + "/same-meaning", r.den == t.den, "the aligned expression does not have the meaning of the original")
+            return "same" if r is t else "rebuilt"
+
+    return explore(body, _opts(tier, mentioned={"__add__", "__sub__", "__mul__", "__and__", "__or__", "__xor__", "And", "Or"}, max_arity=3, nested_arity=2))
+
+
+HANDLERS = {"__eq__": "_handle_eq", "__ne__": "_handle_ne", "If": "_handle_if", "ULT": "_handle_comparison", "ULE": "_handle_comparison",
+            "UGT": "_handle_comparison", "UGE": "_handle_comparison", "SLT": "_handle_comparison", "SLE": "_handle_comparison",
+            "SGT": "_handle_comparison", "SGE": "_handle_comparison"}
+
+
+def ob_handle_dispatch(w=4, tier="quick"):
+    """_handle: ClaripyBalancerUnsatError only if the truism has no satisfying assignment; a truism whose left side has one value records
+    nothing; otherwise exactly the handler of the truism's operation runs, on that truism (the handlers have their own obligations)"""
+    ns = load2()
+    _cardinality_free()
+    B = ns["Balancer"]
+    proxies.set_iw(24)
+    from claripy.errors import ClaripyBalancerUnsatError
+    label = "Balancer._handle"
+
+    def body(c):
+        ops = CMP + ["If"]
+        op = ops[c.choose([True] * len(ops), "op")]
+        if op == "If":
+            t = SN.new_node(("bool",), "root_t")
+            cond, tb, fb = (SN.new_node(("bool",), n) for n in ("cond", "then", "else"))
+            t._set_shape("If", (cond, tb, fb))
+            c.assume(t.den == z3.If(cond.den, tb.den, fb.den))
+        else:
+            t = _truism(c, op, None, w)
+        b = _blank(B)
+        calls = []
+        for h in set(HANDLERS.values()):
+            setattr(b, h, (lambda hh: (lambda x: calls.append((hh, x))))(h))
+        try:
+            b._handle(t)
+        except ClaripyBalancerUnsatError:
+            c.check(label + "/unsat-only-if-unsat", z3.Not(t.den), "reported unsatisfiable although an assignment satisfies the truism")
+            return "unsat"
+        except (PathEnd, Undecided):
+            raise
+        except Exception as ex:  # noqa
+            c.fail(label + "/raises", f"{type(ex).__name__}: {ex}", kind="raises")
+            return "raised"
+        single = op != "If" and t.args[0].cardinality == 1
+        if single or (op == "If" and not calls):
+            if calls and single:
+                c.fail(label + "/single-valued-left-side", "a handler ran although the left side has one value")
+            c.check(label + "/done", True)
+            return "nothing"
+        if len(calls) != 1 or calls[0][0] != HANDLERS[op] or calls[0][1] is not t:
+            c.fail(label + "/dispatch", f"for {op} the handlers called were {[h for h, _ in calls]}; expected {HANDLERS[op]} on the truism")
+            return "bad"
+        c.check(label + "/done", True)
+        return op
+
+    return explore(body, _opts(tier))
+
+
+def ob_handleable(w=4, tier="quick"):
+    """_handleable_truism is the gate of the worklist: what it lets through is adjusted, balanced and handled, and all of that computes on
+    bit-vectors (len(), min / max, bounds, a bound symbol of len(expr) bits).  Post: a truthy answer only for a truism with two operands that
+    are both bit-vectors, at most one of them multi-valued, and whose operation is not If."""
+    ns = load2()
+    _cardinality_free()
+    B = ns["Balancer"]
+    proxies.set_iw(24)
+    label = "Balancer._handleable_truism"
+
+    def body(c):
+        t = SN.new_node(("bool",), "root_t")
+        c.describers.append(lambda m: {"truism": SN.describe(t, m)})
+        try:
+            r = B._handleable_truism(t)
+        except (PathEnd, Undecided):
+            raise
+        except Exception as ex:  # noqa
+            c.fail(label + "/raises", f"{type(ex).__name__}: {ex}", kind="raises")
+            return "raised"
+        if not r:
+            c.check(label + "/declined", True)
+            return "declined"
+        args = t.args
+        if len(args) < 2:
+            c.fail(label + "/two-operands", "accepted a truism with fewer than two operands")
+            return "bad"
+        if not all(isinstance(a, SN.SymBV) for a in args[:2]):
+            c.fail(label + "/bit-vector-operands", f"accepted {t.root()._op} over {[type(a).__name__ for a in args[:2]]}: the handlers compute bounds of len(operand) bits "
+                   "and intersect the operand with a bit-vector bound", kind="precondition")
+            return "bad"
+        if t.root()._op == "If":
+            c.fail(label + "/not-if", "accepted an If")
+            return "bad"
+        if args[0].cardinality > 1 and args[1].cardinality > 1:
+            c.fail(label + "/one-side-single-valued", "accepted a truism whose operands are both multi-valued")
+            return "bad"
+        c.check(label + "/accepted", True)
+        return "accepted:" + str(t.root()._op)
+
+    return explore(body, _opts(tier, replay=replay_handleable))
+
+
+def replay_handleable(failure):
+    """native: constraint_to_si on a disequality between a comparison and a Boolean constant; every returned pair must be (expression, bound)
+    with a bound that is an expression of the same sort"""
+    import claripy
+    x = claripy.BVS("x", 8)
+    for t in [(x > 3) != claripy.false(), (x > 3) != claripy.true()]:
+        try:
+            sat, repl = claripy.backends.vsa.constraint_to_si(t)
+        except Exception as e:  # noqa
+            return {"reproduced": True, "text": f"constraint_to_si({t!r}) raised {type(e).__name__}: {e}"}
+        for old, new in repl:
+            if not isinstance(new, claripy.ast.Base) or type(new) is not type(old):
+                return {"reproduced": True, "text": f"constraint_to_si({t!r}) = ({sat}, {repl!r}): the bound of {old!r} is {new!r}"}
+    return {"reproduced": False, "text": "constraint_to_si returns well-formed pairs for Boolean disequalities"}
+
+
+def _rule_stub(c, w, name, pushes=None):
+    """contract of a balancing rule (each proved as its own obligation, except the recorded findings): the same truism, or a comparison that
+    the truism implies; ClaripyBalancerError allowed; _balance_if may also push implied truisms / report an unsatisfiable truism"""
+    from claripy.errors import ClaripyBalancerError, ClaripyBalancerUnsatError
+
+    def stub(t):
+        k = c.choose([True, True, True] + ([True] if pushes is not None else []), f"{name}-outcome")
+        if k == 0:
+            return t
+        if k == 2:
+            raise ClaripyBalancerError("spec: rule gave up")
+        if k == 3:
+            if c.choose([z3.Not(t.den), True], "if-unsat") == 0:
+                raise ClaripyBalancerUnsatError()
+            p = SN.new_node(("bool",), "pushed")
+            c.assume(z3.Implies(t.den, p.den))
+            pushes.append(p)
+        op = CMP[c.choose([True] * len(CMP), f"{name}-result-op")]
+        r = _truism(c, op, None, w)
+        c.assume(z3.Implies(t.den, r.den))
+        return r
+    return stub
+
+
+def ob_balance_loop(w=4, tier="quick"):
+    """the loop of _balance by invariant.  Invariant: the current truism is implied by the truism _balance was called with.  One ARBITRARY
+    iteration is executed on the real code (the rules and _align_truism by their contracts); at the start of the next iteration, and at every
+    return, the invariant is checked.  ClaripyBalancerUnsatError only if the original truism has no satisfying assignment."""
+    ns = load2()
+    _cardinality_free()
+    B = ns["Balancer"]
+    proxies.set_iw(24)
+    from claripy.errors import ClaripyBalancerUnsatError
+    label = "Balancer._balance"
+
+    def body(c):
+        t0 = SN.new_node(("bool",), "root_original")
+        op = CMP[c.choose([True] * len(CMP), "cmp-op")]
+        t = _truism(c, op, None, w)                       # the truism at the start of an arbitrary iteration
+        c.assume(z3.Implies(t0.den, t.den))                # invariant
+        b = _blank(B)
+        seen = []
+
+        def align(x):
+            if seen:
+                seen.append(x)
+                raise _Cut()
+            seen.append(x)
+            if c.choose([True, True], "align-rebuilds") == 0:
+                return x
+            r = _truism(c, x.root()._op, None, w)
+            c.assume(r.den == x.den)
+            return r
+        saved = {}
+        for name in list(RULES) + ["_align_truism"]:
+            saved[name] = B.__dict__[name]
+        try:
+            B._align_truism = staticmethod(align)
+            for name in RULES:
+                setattr(B, name, staticmethod(_rule_stub(c, w, name)))
+            b._balance_if = _rule_stub(c, w, "_balance_if", pushes=b._truisms)
+            try:
+                r = b._balance(t)
+            except _Cut:
+                nxt = seen[-1]
+                c.check(label + "/invariant-at-next-iteration", z3.Implies(t0.den, nxt.den), "the truism carried into the next iteration does not follow from the original one")
+                r = None
+            except ClaripyBalancerUnsatError:
+                c.check(label + "/unsat-only-if-unsat", z3.Not(t0.den), "reported unsatisfiable although an assignment satisfies the truism")
+                return "unsat"
+            except (PathEnd, Undecided):
+                raise
+            except Exception as ex:  # noqa
+                import traceback
+                c.fail(label + "/raises", f"{type(ex).__name__}: {ex} {traceback.format_exc()[-300:]}", kind="raises")
+                return "raised"
+        finally:
+            for name, v in saved.items():
+                setattr(B, name, v)
+        if r is not None:
+            if not isinstance(r, SN.SymBoolN):
+                c.fail(label + "/type", f"returned {type(r).__name__}")
+                return "type"
+            c.check(label + "/result-implied", z3.Implies(t0.den, r.den), "the returned truism does not follow from the original one")
+        for p in b._truisms:
+            c.check(label + "/pushed-implied", z3.Implies(t0.den, p.den), "a truism pushed on the worklist does not follow from the original one")
+        return "returned" if r is not None else "next-iteration"
+
+    return explore(body, _opts(tier))
+
+
+class _Worklist(list):
+    """the worklist at the start of an ARBITRARY iteration of _doit: it holds some truisms, all implied by the constraint (the invariant); pop()
+    yields an arbitrary one of them; the second evaluation of the loop condition ends the run (the state is then checked)"""
+    def __init__(self, t):
+        super().__init__()
+        self.t, self.checks = t, 0
+
+    def __len__(self):
+        self.checks += 1
+        if self.checks > 1:
+            raise _Cut()
+        return 1
+
+    def pop(self, *a):
+        return self.t
+
+
+def ob_doit(w=4, tier="quick"):
+    """the worklist loop of _doit by invariant.  Invariant: every truism on the worklist is implied by the constraint c, and every recorded
+    bound holds under c.  One ARBITRARY iteration runs on the real code with every callee answered by its contract (_unpack_truisms,
+    _handleable_truism, _adjust_truism, _get_assumptions, _balance, _handle, the VSA queries); afterwards every truism that was pushed and
+    every bound fact that was recorded must follow from c; ClaripyBalancerUnsatError only if c has no satisfying assignment.  The entry
+    (excavate_ite(c) is pushed first) is the base case: by contract excavate_ite keeps the meaning."""
+    ns = load2()
+    _cardinality_free()
+    B = ns["Balancer"]
+    proxies.set_iw(24)
+    from claripy.errors import ClaripyBalancerUnsatError
+    label = "Balancer._doit"
+
+    def body(c):
+        c0 = SN.new_node(("bool",), "root_c")
+        t = SN.new_node(("bool",), "popped")
+        c.assume(z3.Implies(c0.den, t.den))                       # invariant: the popped truism follows from c
+        b = _blank(B)
+        wl = _Worklist(t)
+        b._truisms = wl
+        facts = []
+
+        def implied_by(x, name):
+            r = SN.new_node(("bool",), name)
+            c.assume(z3.Implies(x.den, r.den))
+            return r
+
+        def unpack(x):
+            k = c.choose([True, True, z3.Not(x.den)], "unpack-outcome")
+            if k == 2:
+                raise ClaripyBalancerUnsatError()
+            return set() if k == 0 else {implied_by(x, "unpacked")}
+
+        def adjust(x):
+            if c.choose([True, True], "adjust-reverses") == 0:
+                return x
+            r = SN.new_node(("bool",), "adjusted")
+            c.assume(r.den == x.den)
+            return r
+
+        def assumptions(x):
+            if c.choose([True, True], "has-assumption") == 0:
+                return []
+            a = SN.new_node(("bool",), "assumption")
+            c.assume(a.den)
+            return [a]
+
+        def balance(x):
+            if c.choose([z3.Not(x.den), True], "balance-unsat") == 0:
+                raise ClaripyBalancerUnsatError()
+            if c.choose([True, True], "balance-pushes") == 1:
+                wl.append(implied_by(x, "pushed-by-balance"))
+            return implied_by(x, "balanced")
+
+        def handle(x):
+            if c.choose([z3.Not(x.den), True], "handle-unsat") == 0:
+                raise ClaripyBalancerUnsatError()
+            if c.choose([True, True], "handle-pushes") == 1:
+                wl.append(implied_by(x, "pushed-by-handle"))
+            f = z3.Bool(f"bound_fact{len(facts)}")
+            c.assume(z3.Implies(x.den, f))
+            facts.append(f)
+
+        saved = {n: B.__dict__[n] for n in ("_unpack_truisms", "_handleable_truism", "_adjust_truism", "_get_assumptions")}
+        old_hash = SN.SymBoolN.__hash__
+        try:
+            SN.SymBoolN.__hash__ = lambda self: id(self.root())
+            B._unpack_truisms = staticmethod(unpack)
+            B._handleable_truism = staticmethod(lambda x: [None, False, True][c.choose([True, True, True], "handleable")])
+            B._adjust_truism = staticmethod(adjust)
+            B._get_assumptions = staticmethod(assumptions)
+            b._balance = balance
+            b._handle = handle
+            entry = []
+            try:
+                b._doit(c0)
+            except _Cut:
+                pass
+            except ClaripyBalancerUnsatError:
+                c.check(label + "/unsat-only-if-unsat", z3.Not(c0.den), "reported unsatisfiable although an assignment satisfies the constraint")
+                return "unsat"
+            except (PathEnd, Undecided):
+                raise
+            except Exception as ex:  # noqa
+                import traceback
+                c.fail(label + "/raises", f"{type(ex).__name__}: {ex} {traceback.format_exc()[-300:]}", kind="raises")
+                return "raised"
+        finally:
+            SN.SymBoolN.__hash__ = old_hash
+            for n, v in saved.items():
+                setattr(B, n, v)
+        pushed = list.__iter__(wl)
+        n = 0
+        for p in pushed:
+            n += 1
+            if not isinstance(p, SN.SymBoolN):
+                c.fail(label + "/pushed-type", f"pushed a {type(p).__name__}")
+                continue
+            c.check(label + "/worklist-invariant", z3.Implies(c0.den, p.den), "a truism on the worklist does not follow from the constraint")
+        for f in facts:
+            c.check(label + "/recorded-bounds-follow-from-the-constraint", z3.Implies(c0.den, f), "a bound was recorded from a truism that does not follow from the constraint")
+        c.check(label + "/done", True)
+        return f"iteration:{n}pushed:{len(facts)}facts"
+
+    return explore(body, _opts(tier))
+
+
 # ---- bounded end to end ------------------------------------------------------------------------------------------
 
 def _members_of_bound(bound, w):
